@@ -45,3 +45,13 @@ proof fn axiom_default_vec<T>()
 
 pub assume_specification<T>[ core::mem::replace::<T> ](dest: &mut T, src: T) -> (r: T)
     ensures r == *old(dest), *final(dest) == src;
+
+pub assume_specification<T: Clone>[ <[T]>::to_vec ](s: &[T]) -> (r: Vec<T>)
+    ensures r@.len() == s@.len(), forall|i: int| 0 <= i < s@.len() ==> call_ensures(T::clone, (&s@[i],), #[trigger] r@[i]);
+
+// bytes are Copy: cloning a u8 yields the same u8
+#[verifier::external_body]
+proof fn axiom_clone_u8()
+    ensures forall|a: u8, b: u8| call_ensures(u8::clone, (&a,), b) ==> a == b,
+{
+}
